@@ -48,6 +48,8 @@ type Case struct {
 	Off      int `json:"off,omitempty"`      // xpage: start of the write relative to the boundary
 	Len      int `json:"len,omitempty"`      // xpage: number of bytes
 	Pattern  int `json:"pattern,omitempty"`  // xpage: data pattern
+
+	Bytes string `json:"bytes,omitempty"` // handmade: the instruction head (hex); K = slot size
 }
 
 type fn struct {
@@ -946,6 +948,8 @@ func Run(c *vk.Ctx) {
 		w.runLive(replay)
 	case "xpage":
 		w.runXpage(replay)
+	case "handmade":
+		w.runHandmade(replay)
 	case "protlog":
 		runProtlog(c)
 	default:
